@@ -66,27 +66,7 @@ def selftest_binding():
 
 
 def apalache_inductive():
-    """Unbounded argument for the offset / limit arithmetic (spec/apalache/DecoderArith.tla): Init => IndInv,
-    IndInv /\\ Next => IndInv', IndInv => Safety, discharged by Apalache.  Extra evidence; a failure of the
-    TOOL is recorded, a refuted obligation is a specification error."""
-    import shutil, subprocess
-    if not shutil.which("apalache-mc"):
-        return {"available": False}
-    d = os.path.join(SPEC, "apalache")
-    outdir = os.path.join(BUILD, "apalache")
-    res = {}
-    for name, args in (("Init=>IndInv", ["--init=Init", "--inv=IndInv", "--length=0"]),
-                       ("IndInv/\\Next=>IndInv'", ["--init=IndInit", "--inv=IndInv", "--length=1"]),
-                       ("IndInv=>Safety", ["--init=IndInit", "--inv=Safety", "--length=0"])):
-        try:
-            p = subprocess.run(["timeout", "600", "apalache-mc", "check", "--out-dir=" + outdir] + args + ["DecoderArith.tla"], cwd=d, capture_output=True, text=True, timeout=660)
-            ok = "EXITCODE: OK" in p.stdout
-            res[name] = "discharged" if ok else ("REFUTED" if "EXITCODE: ERROR (12)" in p.stdout else "tool-error")
-        except Exception as e:
-            res[name] = "tool-error"
-    if any(v == "REFUTED" for v in res.values()):
-        raise ToolError("Apalache refuted an obligation of spec/apalache/DecoderArith.tla: %s" % res)
-    return {"available": True, "obligations": res, "module": "spec/apalache/DecoderArith.tla"}
+    return apalache_check("DecoderArith.tla")
 
 
 def coverage_classes(trace):
